@@ -46,8 +46,10 @@ class SplittingSimulation(BaseSimulation):
             code, error_model, compress=compress, verbose=verbose, rng=rng
         )
 
-        self.decoders = decoders
-        self.error_rates = np.sort(error_rates)[::-1]
+        # Error rates in decreasing order, each with the decoder built for it
+        order = np.argsort(error_rates)[::-1]
+        self.decoders = [decoders[i] for i in order]
+        self.error_rates = np.asarray(error_rates)[order]
         self.n_init_runs = n_init_runs
 
         self.current_error = []
